@@ -91,6 +91,31 @@ def run(ctx, config):
             r2.bad("K1:%s:refcnt:not-dropped" % f.name, inc.where(), f.name, "the reference taken at line %d is not dropped on a path to %s" % (inc.line, getattr(w, "line", w)))
         for w in res["doubles"]:
             r2.bad("K1:%s:refcnt:dropped-twice" % f.name, w.where(), f.name, "the reference taken at line %d is dropped twice" % inc.line)
+    # a bare `--refcnt` never releases the listener: it is only right where the count is known to stay positive, i.e. under the failed edge of the
+    # "is this the last reference" test taken after the user callback (the callback may have called evconnlistener_free)
+    for g in P.fns_in("listener.c"):
+        if g.name == "listener_decref_and_unlock":
+            continue
+        for el in g.elems():
+            if not (el.e[0] == "incdec" and el.e[1] == "--" and is_e(strip(el.e[3]), "fld") and strip(el.e[3])[2] == "evconnlistener.refcnt"):
+                continue
+            tests = [b for b in g.branch_blocks() if is_e(strip(b.term["cond"]), "bin") and strip(b.term["cond"])[1] == "==" and
+                     is_e(strip(strip(b.term["cond"])[2]), "fld") and strip(strip(b.term["cond"])[2])[2] == "evconnlistener.refcnt" and
+                     is_e(strip(strip(b.term["cond"])[3]), "int") and strip(strip(b.term["cond"])[3])[1] == 1]
+            ok = False
+            for b in tests:
+                fs = [s_ for s_, l in b.succ if l == "F"]
+                if not fs or not g.dominates(fs[0], el.bid):
+                    continue
+                # no user callback between the test and the decrement
+                stale = g.path_avoiding((fs[0], -1), lambda x: x is el, lambda x: False)
+                cb_between = g.path_avoiding((fs[0], -1), lambda x: user_cb_call(x), lambda x: x is el)
+                if cb_between is None or not g.dominates(fs[0], cb_between.bid) or g.path_avoiding(cb_between.pos(), lambda x: x is el, lambda x: False) is None:
+                    ok = True
+            r2.inst(("raw", g.name, el.n), {"fn": g.name, "site": el.where(), "under_not_last_reference_test": ok})
+            if not ok:
+                r2.bad("K4:%s:refcnt:bare-decrement-may-be-last" % g.name, el.where(), g.name,
+                       "--refcnt without having established that another reference remains (refcnt == 1 must have failed since the last user callback): if the callback freed the listener this drops the last reference without destroying it — the socket and the listener leak")
     rules.append(r2)
 
     r3 = Rule("C44-order", "K3/K4", "enabled is re-tested after each user callback; non-retriable errors reach errorcb; listening fd closed only under CLOSE_ON_FREE", floor=4)
